@@ -55,3 +55,28 @@ M("C09", "M10-extra-condition", (BR, "if raise_if_broke and nlv <= 0:", "if rais
 E("C09", "E1-not-gt", (BR, "if raise_if_broke and nlv <= 0:", "if raise_if_broke and not (nlv > 0):"))
 E("C09", "E2-handler-reordered", (EN, "            info = dict()\n            self._done = True", "            self._done = True\n            info = dict()"))
 E("C09", "E3-local-alias", (BR, "        nlv = sum(holdings_values.values())\n        if raise_if_broke and nlv <= 0:", "        nlv = sum(holdings_values.values())\n        broke = nlv <= 0\n        if raise_if_broke and broke:"))
+
+# ------------------------------------------------------------------ C14
+M("C14", "M1-no-alive-guard", (EX, "        if book.is_alive:\n            book.update(event)", "        book.update(event)"), "S3.alive-guard")
+M("C14", "M2-dead-before-reinit", (EX, "        self.__init__()\n        self.history = history\n        self.time = event.time\n        self.is_alive = False", "        self.is_alive = False\n        self.__init__()\n        self.history = history\n        self.time = event.time"), "S3")
+M("C14", "M3-drop-history-append", (EX, "        self.history[\"bid_size\"].append(self.bid_size)\n", ""), "S1.history-bid_size")
+M("C14", "M4-swap-bid-ask", (EX, "        self.bid_price = event.bid_price\n", "        self.bid_price = event.ask_price\n"), "S1.store-bid_price")
+M("C14", "M5-update-all-books", (EX, "        if book.is_alive:\n            book.update(event)", "        for book in self._books.values():\n            if book.is_alive:\n                book.update(event)"), "S2")
+M("C14", "M6-acq-swapped", (EX, "        if quantity < 0:\n            return self.bid_price\n        elif quantity > 0:\n            return self.ask_price", "        if quantity < 0:\n            return self.ask_price\n        elif quantity > 0:\n            return self.bid_price"), "S4.acq")
+M("C14", "M7-zero-at-ask", (EX, "        elif quantity == 0:\n            return self.mid_price", "        elif quantity == 0:\n            return self.ask_price"), "S4.acq-zero")
+M("C14", "M8-mid-history-stale", (EX, "        self.bid_price = event.bid_price\n        self.ask_price = event.ask_price\n", "        self.history[\"mid_price\"].append(self.mid_price)\n        self.bid_price = event.bid_price\n        self.ask_price = event.ask_price\n"), "S1.history")
+M("C14", "M9-liq-same-sign", (EX, "        return self.acq_price(-quantity)", "        return self.acq_price(quantity)"), "S4.liq-is-opposite")
+M("C14", "M10-terminate-keeps-quotes", (EX, "        history = self.history\n        self.__init__()\n        self.history = history", "        history = self.history\n        bid = self.bid_price\n        self.__init__()\n        self.bid_price = bid\n        self.history = history"), "S3.no-price-after-death")
+M("C14", "M11-terminate-loses-history", (EX, "        self.__init__()\n        self.history = history\n", "        self.__init__()\n"), "S3.history-kept")
+M("C14", "M12-getitem-raw-key", (EX, "        if isinstance(key, AbstractContract):\n            key = key.static_hashing()  # TODO: Test\n", ""), "S5.getitem-normalises-key")
+M("C14", "M13-shared-book", (EX, "        self._books = defaultdict(LimitOrderBook)", "        _shared = LimitOrderBook()\n        self._books = defaultdict(lambda: _shared)"), "S2.fresh-book-per-key")
+M("C14", "M14-nan-to-mid", (EX, "        else:\n            raise ValueError(\"Unexpected sign: {}\".format(quantity))", "        else:\n            return self.mid_price"), "S4.acq-nan")
+M("C14", "M15-hash-by-short-symbol", (CO, "        different contracts have to have different hash number.\"\"\"\n        return hash(self.symbol)", "        different contracts have to have different hash number.\"\"\"\n        return hash(self.symbol_short)"), "S5.hash-by-symbol")
+M("C14", "M16-mid-weighted", (EX, "        return (self.ask_price + self.bid_price) / 2", "        return (self.ask_price + self.bid_price * 2) / 3"), "S4.mid")
+M("C14", "M17-feature-updates-book", (LB, "        w = [self.exchange[contract].mid_price for contract in self.contracts]\n        return np.array([w])", "        w = [self.exchange[contract].mid_price for contract in self.contracts]\n        for contract in self.contracts:\n            self.exchange[contract].update(self.exchange[contract])\n        return np.array([w])"), "S3.update-callers")
+M("C14", "M18-update-skips-size-on-branch", (EX, "        self.history[\"ask_size\"].append(self.ask_size)", "        if self.ask_size == self.ask_size:\n            self.history[\"ask_size\"].append(self.ask_size)"), "S1.history-ask_size")
+E("C14", "E1-appends-reordered", (EX, "        self.history[\"time\"].append(self.time)\n        self.history[\"bid_price\"].append(self.bid_price)\n", "        self.history[\"bid_price\"].append(self.bid_price)\n        self.history[\"time\"].append(self.time)\n"))
+E("C14", "E2-mid-rewritten", (EX, "        return (self.ask_price + self.bid_price) / 2", "        return 0.5 * self.bid_price + 0.5 * self.ask_price"))
+E("C14", "E3-acq-reordered", (EX, "        if quantity < 0:\n            return self.bid_price\n        elif quantity > 0:\n            return self.ask_price\n        elif quantity == 0:\n            return self.mid_price", "        if quantity == 0:\n            return self.mid_price\n        elif 0 < quantity:\n            return self.ask_price\n        elif quantity < 0:\n            return self.bid_price"))
+E("C14", "E4-update-from-locals", (EX, "        self.bid_price = event.bid_price\n        self.ask_price = event.ask_price\n", "        bid, ask = event.bid_price, event.ask_price\n        self.ask_price = ask\n        self.bid_price = bid\n"))
+E("C14", "E5-book-local-renamed", (EX, "        book = self[event.contract]\n        if book.is_alive:\n            book.update(event)", "        lob = self[event.contract]\n        if not lob.is_alive:\n            pass\n        else:\n            lob.update(event)"))
